@@ -10,13 +10,20 @@ value other than GT/PS/HP of target samples on selected chromosomes, allele mult
 (unless --distrust-genotypes), phase marks only on supported heterozygous calls that the run phased, and the
 header definitions.  Correspondence: parsed output records == Lean `c04.write` (repaired writer) applied to the
 parsed input records with the traced super-reads/components; output header == Lean `c04.header`.
+
+Since round E04 (Model/C04File.lean) also at file level: `c04.file` runs the model of reader (`groupby`, row selection), augmenter
+(look-ahead streaming) and chromosome loop over the TEXT of htslib's copy of the input: tables, every output line's FORMAT and
+sample columns byte for byte, the reader's rows against the real VcfReader, header (incl. Number/Type of FORMATs), refusals
+(VcfError, unknown sample) both ways, sample selection; plus in-process stream cases (arbitrary `write` call sequences on the
+real PhasedVcfWriter) and reader cases (record lists with every skipped kind, unsorted positions, odd ploidies).
 """
-import json, os, random, re, shutil
+import gzip, json, os, random, re, shutil
 
 import pysam
 
 from harness.gen import sim
 from harness.gen import c04_records as R
+from harness.gen import c04_file as F
 from harness.gen.c04_vcf import gen_case, build_inputs
 from harness.props.c09 import eligible_first, expected_phases
 
@@ -24,16 +31,21 @@ RULE = ("one `whatshap phase` CLI run over a generated multi-sample, multi-chrom
         "(Integer/Float/String/Flag, Number 1/A/R/G/.), ID/QUAL/FILTER values, missing/partial genotypes, records without "
         "GT / without ALT, multi-ALT, symbolic ALT, duplicate positions, pre-existing PS/HP phase, optional missing contig "
         "lines and mis-declared predefined FORMATs; random --sample/--chromosome selection, both tags, optional --only-snvs, "
-        "--distrust-genotypes. Non-trivial: at least one call was phased and the file has at least one record the writer must "
+        "--distrust-genotypes, chromosome names coming back later in the file, >=16-ALT records, undeclared predefined INFOs, refused "
+        "inputs, output to file/stdout/.gz/over an existing file; plus in-process cases without BAM: `write` call sequences on "
+        "the real PhasedVcfWriter (non-trivial: a chromosome comes back) and record lists for the real VcfReader (non-trivial: "
+        "some record is no table row). CLI runs non-trivial: at least one call was phased and the file has at least one record the writer must "
         "skip or one non-target sample/chromosome; distinct = distinct (generator seed, options)")
 MANIFEST = dict(
     text="Lean 4 theorems about a record-level model of PhasedVcfWriter.write and of the header pipeline "
          "(untouched_outside_targets, only_phase_fields_change, alleles_preserved, phased_only_if_het_supported, "
-         "header_superset); tied to the working tree by real CLI runs: the parsed output must equal the model applied to the "
+         "header_superset) and of the file level around it (reader row selection, groupby, augmenter look-ahead, chromosome loop, "
+         "header scan, column text: stream_lockstep, file_untouched_outside_selection, writer_reader_agree, "
+         "alleles_preserved_from_table, header_covers_body, text_nothing_else); tied to the working tree by real CLI runs: the parsed output must equal the model applied to the "
          "parsed input with the traced super-reads/components, and an independent line-by-line oracle compares the output "
          "with htslib's own unmodified re-serialisation of the input",
     design_ref="DESIGN.md §5 C04",
-    note="trusted: Lean kernel; hand-written model (differential: quick 30 CLI runs, thorough 300); htslib parsing and "
+    note="trusted: Lean kernel; hand-written model (differential: quick 30 CLI runs + 300 in-process cases, thorough 300 + 3000); htslib parsing and "
          "serialisation (the oracle's baseline is a pysam copy of the input). phased_only_if_het_supported needs the "
          "tag-independent removal of fixes/F4.patch; on the unpatched repo --tag HP leaves stale phase marks of the input "
          "(reported, key stale-mark) and can write a NUL byte as HP value (F21, key output-unparsable)",
@@ -77,12 +89,16 @@ def pysam_copy(src, dst):
         header = vf.header
         have_c, have_f, have_i = set(header.contigs), set(header.formats), set(header.info)
         for fixed, fmt, _ in recs:
+            for name in fixed[6].split(";"):
+                if name != "." and name not in header.filters:
+                    header.filters.add(name, None, None, name)
             if fixed[0] not in have_c:
                 header.contigs.add(fixed[0]); have_c.add(fixed[0])
             for k in (fmt.split(":") if fmt else []):
                 if k not in have_f and k in FMT_DEFS:
                     header.add_line(FMT_DEFS[k]); have_f.add(k)
-            for kv in fixed[7].split(";"):
+            # (htslib wants the END definition for a symbolic ALT allele even when the record has no END)
+            for kv in fixed[7].split(";") + (["END"] if "<" in fixed[4] else []):
                 k = kv.split("=")[0]
                 if k != "." and k not in have_i and k in INFO_DEFS:
                     header.add_line(INFO_DEFS[k]); have_i.add(k)
@@ -105,6 +121,13 @@ def alleles_of(gt):
     return sorted(re.split(r"[/|]", gt))
 
 
+def file_request(path, samples, hin, fc, phasing):
+    """`c04.file` over the text of `path`"""
+    _, trecs = sim.read_vcf_text(path)
+    return {"op": "c04.file", "fc": fc, "phasing": phasing, "header": hin, "commandLine": True,
+            "records": [F.text_frec(fixed, fmt, cols, samples) for fixed, fmt, cols in trecs]}
+
+
 def run_case(ctx, case, n):
     o, v = case["opts"], case["vcf"]
     d = os.path.join(ctx.workdir(), f"case{n}")
@@ -116,13 +139,21 @@ def run_case(ctx, case, n):
     sel_s = sorted(r2.sample(samples, r2.randrange(1, len(samples) + 1))) if (o["sample_sel"] and len(samples) > 1) else None
     sel_c = sorted(r2.sample(chroms, r2.randrange(1, len(chroms) + 1))) if (o["chrom_sel"] and len(chroms) > 1) else None
     out = os.path.join(d, "out.vcf")
-    a = ["phase", "-o", out, "--reference", fa, "--tag", o["tag"]]
+    out_kind = o.get("out_kind", "file")
+    out_arg = out + ".gz" if out_kind == "gz" else out
+    if out_kind == "preexisting":
+        with open(out, "w") as f:           # longer than any output: `-o` must replace the file, not overwrite its beginning
+            f.write("##stale\n" + "stale line of a previous run\n" * 20000)
+    a = ["phase", "--reference", fa, "--tag", o["tag"]] + ([] if out_kind == "stdout" else ["-o", out_arg])
     a += ["--distrust-genotypes"] if o["distrust"] else []
     a += ["--only-snvs"] if o["only_snvs"] else []
     a += ["--include-homozygous"] if o.get("include_hom") else []
     a += ["--ped", os.path.join(d, "in.ped")] if o.get("ped") else []
+    a += ["--use-ped-samples"] if o.get("use_ped_samples") else []
     for s in sel_s or []:
         a += ["--sample", s]
+    if o.get("bad_sample"):
+        a += ["--sample", "NoSuchSample"]
     for c in sel_c or []:
         a += ["--chromosome", c]
     rc, so, se, trace = R.run_whatshap(ctx, a + [vcf, bam], trace=os.path.join(d, "trace.jsonl"))
@@ -130,6 +161,11 @@ def run_case(ctx, case, n):
     ctx.dist("tag", o["tag"]); ctx.dist("pre", v["pre"]); ctx.dist("selection", ("S" if sel_s else "-") + ("C" if sel_c else "-"))
     ctx.dist("mode", ("distrust" if o["distrust"] else "trust") + ("+hom" if o.get("include_hom") else "") + ("+ped" if o.get("ped") else "")
              + ("+snvs" if o["only_snvs"] else ""))
+    ctx.dist("output", out_kind)
+    ctx.dist("file_shape", ("split " if v.get("split_chrom") else "") + ("manyALT " if v.get("many_alts") else "")
+             + ("oddTagDefs " if v.get("odd_tag_defs") else "") + ("undeclInfo " if v.get("undeclared_info") else "") + ("undeclFILTER " if v.get("undeclared_filter") else "") + (v.get("refused") or "") + (" badSample" if o.get("bad_sample") else "")
+             + (" pedSamples" if o.get("use_ped_samples") else "") or "plain")
+    hin = [parse_hline(l) for l in header_lines(vcf)]
     fails = []
 
     def fail(what, key):
@@ -137,7 +173,14 @@ def run_case(ctx, case, n):
             ctx.fail(what, case, key=key)
         fails.append(key)
 
-    hin = [parse_hline(l) for l in header_lines(vcf)]
+    # what the model says about refusing the input: sample selection and header pipeline
+    ped_samples = sorted({x for t in sc.trios for x in t}) if o.get("use_ped_samples") else None
+    sel_ans, hdr_ans = ctx.model.ask_many([
+        {"op": "c04.select", "header": samples, "sampleOpt": (sel_s or []) + (["NoSuchSample"] if o.get("bad_sample") else []),
+         "ped": ped_samples},
+        file_request(vcf, samples, hin, {"tag": o["tag"], "onlySnvs": o["only_snvs"], "samples": samples, "order": [],
+                                         "chromosomes": []}, [])])
+    refusal = ("unknown sample " + sel_ans["error"]) if "error" in sel_ans else ("VcfError" if "headerError" in hdr_ans else None)
     if rc != 0:
         last = (se.strip().splitlines() or ["?"])[-1][:300]
         if "Traceback" in se or rc < 0:
@@ -145,8 +188,28 @@ def run_case(ctx, case, n):
             fail("whatshap phase crashed instead of writing the output: " + last, "crash")
         else:
             ctx.observe("clean command-line error: " + last[:90])
+            if refusal is None:
+                ctx.disagree("c04.refusal", case, "command-line error: " + last, "the model accepts sample selection and header")
+            elif out_kind == "preexisting" and not open(out).read().startswith("##stale"):
+                # (the writer is opened before the samples are checked; nothing C04 says anything about)
+                ctx.observe("a refused run (unknown --sample) had already replaced the existing output file")
         shutil.rmtree(d, ignore_errors=True)
         return
+    if refusal is not None:
+        ctx.disagree("c04.refusal", case, "run succeeded", refusal)
+        shutil.rmtree(d, ignore_errors=True)
+        return
+    if out_kind == "stdout":
+        with open(out, "w") as f:
+            f.write(so)
+    elif out_kind == "gz":
+        raw = open(out_arg, "rb").read()
+        if raw[:4] != b"\x1f\x8b\x08\x04":
+            fail("-o with a .gz name did not produce bgzip-compressed output", "output-not-bgzf")
+        with open(out, "wb") as f:
+            f.write(gzip.decompress(raw) if raw[:2] == b"\x1f\x8b" else raw)
+    if sel_s is None and ped_samples is not None:
+        sel_s = ped_samples
     base = os.path.join(d, "base.vcf")
     pysam_copy(vcf, base)
     _, brecs = sim.read_vcf_text(base)
@@ -245,16 +308,30 @@ def run_case(ctx, case, n):
             fail(f"header: line ##{h['key']}={h['text']} of the input disappeared", "header-line")
 
     # ------------------------------------------------------------- correspondence: records
-    by_chrom = {}
-    for t in trace:
-        by_chrom.setdefault(t["chromosome"], []).append(t)
+    tabs = F.tables([r["chrom"] for r in rin])
+    per_table = F.assign_trace(trace, tabs, processed)
+    if per_table is None:
+        ctx.disagree("c04.trace-shape", case, [t["chromosome"] for t in trace], "one trace record per (processed table, family): "
+                     + str([c for c, _ in tabs if c in processed]))
+        shutil.rmtree(d, ignore_errors=True)
+        return
     reqs, meta = [], []
-    for chrom, idxs in R.chrom_blocks(rin):
-        ts = by_chrom.get(chrom, []) if chrom in processed else []
+    for (chrom, idxs), ts in zip(tabs, per_table):
         cfg = {"tag": tag, "onlySnvs": o["only_snvs"], "mav": False, "repaired": True, "samples": samples,
                "targets": R.targets_from_trace(ts)}
         reqs.append({"op": "c04.write", "cfg": cfg, "records": [R.model_record(rin[i], samples) for i in idxs]})
         meta.append(idxs)
+    # the whole file through the model of reader, augmenter and chromosome loop, on the TEXT of htslib's copy of the input
+    orders = [[x["name"] for x in R.targets_from_trace(ts)] for (c, _), ts in zip(tabs, per_table) if c in processed]
+    order = orders[0] if orders else sorted(targets)
+    if any(x != order for x in orders):
+        ctx.disagree("c04.order", case, orders, "the same samples in the same order for every table")
+    if sorted(order) != sorted(sel_ans["samples"]):
+        ctx.disagree("c04.select", case, sorted(order), sorted(sel_ans["samples"]))
+    freq = file_request(base, samples, hin, {"tag": tag, "onlySnvs": o["only_snvs"], "samples": samples, "order": order,
+                                             "chromosomes": sel_c or []},
+                        [R.targets_from_trace(ts) for ts in per_table])
+    reqs.append(freq)
     # header request
     used_contigs, used_formats, used_infos = [], [], set()
     for r in rin:
@@ -264,8 +341,9 @@ def run_case(ctx, case, n):
     reqs.append({"op": "c04.header", "tag": tag, "commandLine": True, "header": hin, "contigs": used_contigs, "formats": used_formats,
                  "infos": sorted(used_infos)})
     answers = ctx.model.ask_many(reqs)
+    fans, hans = answers[-2], answers[-1]
     if len(rout) == len(rin) and not fails:
-        for idxs, ans in zip(meta, answers[:-1]):
+        for idxs, ans in zip(meta, answers[:-2]):
             if "records" not in ans:
                 ctx.disagree("c04.write", case, "ok", ans); continue
             for i, mrec in zip(idxs, ans["records"]):
@@ -274,20 +352,57 @@ def run_case(ctx, case, n):
                 if diff:
                     ctx.disagree("c04.write", case, {"record": i, "site": impl["site"], "impl": diff[0]}, {"model": diff[1]})
                     break
-    hans = answers[-1]
-    if "header" in hans and not fails:
-        mdefs = {(h["key"], h["id"]) for h in hans["header"] if h["id"] is not None}
-        # htslib always defines FILTER PASS; contigs it adds while parsing undeclared records are modelled by `contigs`
-        idefs = {x for x in defs_out if x != ("FILTER", "PASS")}
-        mdefs = {x for x in mdefs if x != ("FILTER", "PASS")}
-        if idefs != mdefs:
-            ctx.disagree("c04.header", case, sorted(map(str, idefs - mdefs)), sorted(map(str, mdefs - idefs)))
-        mgen = sorted((h["key"], h["text"]) for h in hans["header"] if h["id"] is None and h["key"] != "commandline")
-        igen = sorted(x for x in gen_out if x[0] != "commandline")
-        if mgen != igen:
-            ctx.disagree("c04.header(lines)", case, igen, mgen)
-    elif "error" in hans:
-        ctx.disagree("c04.header", case, "run succeeded", hans)
+    # file level: tables, text of every line, reader rows
+    if "blocks" not in fans:
+        ctx.disagree("c04.file", case, "run succeeded", {k: fans.get(k) for k in ("error", "tables")})
+    elif not fails:
+        mt = [(t["chrom"], t["n"]) for t in fans["tables"]]
+        if mt != [(c, len(ix)) for c, ix in tabs]:
+            ctx.disagree("c04.file(tables)", case, [(c, len(ix)) for c, ix in tabs], mt)
+        mlines = [o_["columns"] for b in fans["blocks"] for o_ in b]
+        if len(mlines) != len(orecs_t):
+            ctx.disagree("c04.file(record count)", case, len(orecs_t), len(mlines))
+        for i, (m, (ofix, ofmt, ocols)) in enumerate(zip(mlines, orecs_t)):
+            impl = [ofmt] + ocols
+            if ofmt is not None and m != impl:
+                j = next((k for k in range(min(len(m), len(impl))) if m[k] != impl[k]), min(len(m), len(impl)))
+                ctx.disagree("c04.file(text)", case, {"record": i, "site": "\t".join(ofix[:5]), "column": j, "impl": impl[j:j + 1]},
+                             {"model": m[j:j + 1]})
+                break
+        if any(o_["err"] for b in fans["blocks"] for o_ in b):
+            ctx.disagree("c04.file(KeyError)", case, "run succeeded", "the model reaches call['GT'] on a record without GT")
+        real_rows = F.real_reader_rows(vcf, o["only_snvs"])
+        model_rows = F.model_rows(fans, freq["records"])
+        if real_rows != model_rows:
+            ctx.disagree("c04.file(reader rows)", case, real_rows, model_rows)
+        elif not isinstance(real_rows, str):
+            ctx.dist("table_rows", min(sum(len(r) for _, r in real_rows), 40) // 10 * 10)
+    ctx.dist("tables", len(tabs))
+    for opname, ans in (("c04.header", hans), ("c04.file(header)", fans)):
+        if "header" in ans and not fails:
+            mdefs = {(h["key"], h["id"]) for h in ans["header"] if h["id"] is not None}
+            # htslib always defines FILTER PASS; contigs it adds while parsing undeclared records are modelled by `contigs`
+            # (and, with fixes/F60.patch, the FILTERs the body uses without declaring them: not part of the header model)
+            declared = {h["id"] for h in hin if h["key"] == "FILTER"}
+            undeclared = {("FILTER", x) for fixed, _, _ in brecs for x in fixed[6].split(";") if x not in declared}
+            idefs = {x for x in defs_out if x != ("FILTER", "PASS")} - undeclared
+            mdefs = {x for x in mdefs if x != ("FILTER", "PASS")}
+            if idefs != mdefs:
+                ctx.disagree(opname, case, sorted(map(str, idefs - mdefs)), sorted(map(str, mdefs - idefs)))
+            mgen = sorted((h["key"], h["text"]) for h in ans["header"] if h["id"] is None and h["key"] != "commandline")
+            igen = sorted(x for x in gen_out if x[0] != "commandline")
+            if mgen != igen:
+                ctx.disagree(opname + "(lines)", case, igen, mgen)
+            # Number/Type of the FORMAT definitions the pipeline (re)writes
+            mform = {h["id"]: (h["number"], h["type"]) for h in ans["header"] if h["key"] == "FORMAT"}
+            iform = {h["id"]: (h["number"], h["type"]) for h in hout if h["key"] == "FORMAT"}
+            if mform != iform:
+                ctx.disagree(opname + "(FORMAT types)", case, sorted(set(iform.items()) - set(mform.items())),
+                             sorted(set(mform.items()) - set(iform.items())))
+        elif "header" not in ans:
+            ctx.disagree(opname, case, "run succeeded", {k: v_ for k, v_ in ans.items() if k in ("error", "headerError")})
+    if "header" in fans and (["commandline" in [h["key"] for h in hout]] != ["commandline" in [h["key"] for h in fans["header"]]]):
+        ctx.disagree("c04.file(commandline)", case, [h["key"] for h in hout].count("commandline"), "one ##commandline line")
     if n_phased and (n_skipped or sel_s or sel_c):
         ctx.nontrivial((case["gen_seed"], json.dumps(o, sort_keys=True), json.dumps(v, sort_keys=True)))
     ctx.dist("phased_calls", min(n_phased, 30) // 5 * 5); ctx.dist("skipped_records", min(n_skipped, 12))
@@ -307,15 +422,66 @@ def record_diff(impl, model):
     return None
 
 
+def run_stream_case(ctx, case, n):
+    """the augmenter's look-ahead: arbitrary `write` call sequences on the real PhasedVcfWriter vs `streamCalls`"""
+    d = os.path.join(ctx.workdir(), f"stream{n}")
+    real, written = F.run_stream_real(case, d)
+    shutil.rmtree(d, ignore_errors=True)
+    ans = ctx.model.ask_many([{"op": "c04.stream", "chroms": case["chroms"], "calls": case["calls"]}])[0]
+    ctx.evaluated()
+    ctx.dist("stream_mode", case["mode"])
+    for r, _ in real:
+        ctx.dist("stream_result", r)
+    if real != ans:
+        ctx.disagree("c04.stream", case, real, ans)
+        return
+    expect = [c for c, (r, k) in zip(case["calls"], real) for _ in range(k)]
+    if written != expect:
+        ctx.disagree("c04.stream(output)", case, written, expect)
+    # oracle, independent of the model: driven table by table (what run_whatshap does), the output is the input
+    if case["calls"] == [c for c, _ in F.tables(case["chroms"])]:
+        if written != case["chroms"] or any(r != "ok" for r, _ in real):
+            ctx.fail(f"write() called once per chromosome block did not reproduce the records in order: CHROM column {case['chroms']} -> "
+                     f"{written}, results {real}", case, key="stream-order")
+        if len(set(case["chroms"])) < len(F.tables(case["chroms"])):
+            ctx.nontrivial(("stream", tuple(case["chroms"])))
+
+
+def run_reader_case(ctx, case, n):
+    """which records become table rows: the real VcfReader vs `readFile`"""
+    d = os.path.join(ctx.workdir(), f"reader{n}")
+    os.makedirs(d, exist_ok=True)
+    path = os.path.join(d, "r.vcf")
+    F.write_reader_vcf(case, path)
+    real = F.real_reader_rows(path, case["only_snvs"])
+    _, trecs = sim.read_vcf_text(path)
+    frecs = [F.text_frec(fixed, fmt, cols, case["samples"]) for fixed, fmt, cols in trecs]
+    shutil.rmtree(d, ignore_errors=True)
+    ans = ctx.model.ask_many([{"op": "c04.reader", "onlySnvs": case["only_snvs"], "records": frecs}])[0]
+    model = F.model_rows(ans, frecs)
+    ctx.evaluated()
+    ctx.dist("reader_shape", case["shape"] + (" snvs" if case["only_snvs"] else ""))
+    ctx.dist("reader_result", real if isinstance(real, str) else "ok")
+    if real != model:
+        ctx.disagree("c04.reader", case, real, model)
+    elif not isinstance(real, str) and sum(len(r) for _, r in real) < len(frecs):
+        ctx.nontrivial(("reader", json.dumps(case["records"], sort_keys=True), case["only_snvs"]))
+
+
 def run(ctx):
     cases = [c for _, c in ctx.corpus()]
     if ctx.replay:
         cases = [json.load(open(ctx.replay))["case"]]
     n = 0
     for c in cases:
-        run_case(ctx, c, n); n += 1
+        kind = c.get("kind", "c04")
+        (run_stream_case if kind == "stream" else run_reader_case if kind == "reader" else run_case)(ctx, c, n); n += 1
     if ctx.replay:
         return
+    for _ in range((150 if ctx.quick else 1500) * ctx.scale):
+        run_stream_case(ctx, F.gen_stream_case(ctx.rng), n); n += 1
+    for _ in range((150 if ctx.quick else 1500) * ctx.scale):
+        run_reader_case(ctx, F.gen_reader_case(ctx.rng), n); n += 1
     for _ in range((30 if ctx.quick else 300) * ctx.scale):
         run_case(ctx, gen_case(ctx.rng, scale=1 if ctx.quick else 2), n); n += 1
     try:
